@@ -6,6 +6,26 @@ from .. import env, factory as F
 from ..core import CaseResult, Check
 
 KINDS = ["float", "int", "bool", "ref", "text"]
+# the caller's array dtype is free as long as it can hold the values: native, narrower integers, integers for float data
+DTYPES = ["native", "native", "native", "int8", "int16", "int64", "uint8", "float32", "int32"]
+
+
+def recast(kind, arr, dt):
+    """Same values in another NumPy dtype the data kind accepts (no information lost)."""
+    if dt == "native" or kind in ("text", "bool"):
+        return arr
+    if kind == "float":
+        if dt in ("int8", "int16", "int32", "int64") and not np.isnan(arr).any() and np.all(arr == np.round(arr)):
+            return arr.astype(dt)
+        if dt == "float32":
+            return arr.astype("float32")  # values are multiples of 1/4: exact
+        return arr
+    if kind in ("int", "ref"):
+        if dt in ("int8", "int16", "int64", "int32") and np.all(np.abs(arr) < 100):
+            return arr.astype(dt)
+        if dt == "uint8" and np.all(arr >= 0):
+            return arr.astype(dt)
+    return arr
 PAD = {"float": "NaN", "int": -2147483648, "ref": -2147483648, "bool": False}
 
 
@@ -31,9 +51,10 @@ def program_strategy(draw, max_ops=8):
     vals = st.lists(st.one_of(st.integers(-20, 20), st.none()), min_size=0, max_size=14)
     op = st.one_of(
         st.fixed_dictionaries({"op": st.just("add"), "kind": st.sampled_from(KINDS), "assoc": st.sampled_from(["VERTEX", "CELL"]),
-                               "vals": vals, "len": st.sampled_from(["exact", "exact", "short", "long"])}),
+                               "vals": vals, "len": st.sampled_from(["exact", "exact", "short", "long"]),
+                               "dt": st.sampled_from(DTYPES)}),
         st.fixed_dictionaries({"op": st.just("set"), "data": st.integers(0, 10), "vals": vals,
-                               "len": st.sampled_from(["exact", "short", "long"])}),
+                               "len": st.sampled_from(["exact", "short", "long"]), "dt": st.sampled_from(DTYPES)}),
         st.fixed_dictionaries({"op": st.just("rmv"), "idx": idx, "as": st.sampled_from(["list", "array"]),
                                "shape": st.sampled_from(["free", "first", "last", "all-but-one", "free", "free"]),
                                "clear": st.booleans()}),
@@ -212,6 +233,15 @@ class C07(Check):
                             continue
                     vals = (list(op["vals"]) + [None, 3, -2, 7, None, 1] * 4)[:length]
                     arr, exp = F.make_values(dkind, vals, max(count, length))
+                    dt = op.get("dt", "native")
+                    if dkind == "float" and dt in ("int8", "int16", "int32", "int64", "uint8"):
+                        # an integer array offered to float data: same numbers, gaps only from padding
+                        ints = [abs(v or 0) % 100 if dt == "uint8" else (v or 0) for v in vals]
+                        arr = np.asarray(ints, dtype=dt)
+                        exp = [float(x) for x in ints] + ["NaN"] * (max(count, length) - length)
+                    else:
+                        arr = recast(dkind, arr, dt)
+                    res.label(f"dtype:{dkind}<-{arr.dtype}")
                     exp_vals = exp[:count] if length <= count else None
                     res.label(f"{kind}:{dkind}:{op['len']}")
                     try:
